@@ -41,7 +41,7 @@ type c19Case struct {
 }
 
 var c19Dirs = []string{"", "src", "src/lib", "third_party/x/y", "docs", "a.b"}
-var c19Kinds = []string{"licensed", "licensed", "header", "two-licenses", "prose", "empty", "crlf", "no-trailing-newline", "long-line-before", "long-line-inside", "binary", "notice-and-license", "edited"}
+var c19Kinds = []string{"licensed", "licensed", "header", "two-headers", "same-as-first", "same-as-first", "two-licenses", "prose", "empty", "crlf", "no-trailing-newline", "long-line-before", "long-line-inside", "binary", "notice-and-license", "edited"}
 var c19Names = []string{"LICENSE", "COPYING.txt", "main.go", "x.c", "NOTICE", "file.rs", "README.md", "a", "b.txt", "zz.h", "lic.TXT", "m.py"}
 
 func c19Gen(t *rapid.T) interface{} {
@@ -75,10 +75,13 @@ func c19Content(f c19File) []byte {
 	pre := oovWords(f.Param, 6, 4)
 	post := oovWords(f.Param+50, 5, 0)
 	switch f.Kind {
-	case "licensed":
+	case "licensed", "same-as-first":
 		return []byte(pre + string(d1.Content) + "\n" + post)
 	case "header":
 		return []byte("// " + strings.Replace(strings.TrimSpace(string(h1.Content)), "\n", "\n// ", -1) + "\n\npackage main\n\nfunc main() {}\n")
+	case "two-headers": // e.g. a dual-licensed source file: two license headers, no full license text
+		h2 := hdr[f.Doc2%len(hdr)]
+		return []byte("/*\n" + strings.TrimSpace(string(h1.Content)) + "\n*/\n\n/*\n" + strings.TrimSpace(string(h2.Content)) + "\n*/\n\nint main() { return 0; }\n")
 	case "two-licenses":
 		return []byte(pre + string(d1.Content) + "\n" + oovWords(f.Param+20, 7, 3) + string(d2.Content) + "\n" + post)
 	case "prose":
@@ -200,6 +203,13 @@ func c19Materialise(c *c19Case, root string) ([]string, map[string][]byte, error
 			continue
 		}
 		b := c19Content(f)
+		if f.Kind == "same-as-first" && len(c.Files) > 0 {
+			first := c.Files[0]
+			if first.Kind == "same-as-first" {
+				first.Kind = "licensed"
+			}
+			b = c19Content(first)
+		}
 		if err := os.WriteFile(p, b, 0o644); err != nil {
 			return nil, nil, err
 		}
